@@ -32,6 +32,7 @@ type Snapshot struct {
 	Burns    map[string]string
 	Proposer string
 	Params   map[string]string
+	Accts    map[string]string // account address -> hex of the stored public key ("" = none)
 }
 
 type ValRec struct {
@@ -80,7 +81,13 @@ func (a *App) Snap() *Snapshot {
 	s := &Snapshot{Bal: map[string]map[string]sdk.Int{}, Vals: map[string]ValRec{}, Prev: map[string]int64{},
 		Queue: map[string][]string{}, Sign: map[string]SignRec{}, Missed: map[string]map[int64]bool{},
 		Awards: map[string]string{}, Burns: map[string]string{}, Params: map[string]string{}}
+	s.Accts = map[string]string{}
 	a.Auth.IterateAccounts(ctx, func(acc authexp.Account) bool {
+		pk := ""
+		if k := acc.GetPubKey(); k != nil {
+			pk = hx(k.RawBytes())
+		}
+		s.Accts[hx(acc.GetAddress())] = pk
 		m := coinsMap(acc.GetCoins())
 		if len(m) > 0 {
 			s.Bal[hx(acc.GetAddress())] = m
@@ -195,6 +202,7 @@ func sortedKeys(m interface{}) []string {
 			ks = append(ks, k)
 		}
 	}
+	_ = 0
 	sort.Strings(ks)
 	return ks
 }
@@ -344,6 +352,17 @@ func (s *Snapshot) String() string {
 		sb.WriteString(" b2[" + strings.Join(b2, ",") + "] s2=" + sup2)
 	}
 	sb.WriteString(s.govText())
+	// which of the key addresses have an account, and which of those accounts carry a public key
+	var ac, pk []string
+	for _, a := range sortedKeys(s.Accts) {
+		if _, ok := keyByAddr[a]; ok {
+			ac = append(ac, a)
+			if s.Accts[a] != "" {
+				pk = append(pk, a)
+			}
+		}
+	}
+	sb.WriteString(" ac[" + strings.Join(ac, ",") + "] pk[" + strings.Join(pk, ",") + "]")
 	return sb.String()
 }
 
